@@ -286,13 +286,13 @@ theorem addEntry_position (e : Entry α) (tbl : Table α) (hs : Sorted tbl) :
 /-! ### histories of table operations -/
 namespace TableOps
 
-variable (key : Entry α → Nat) (bothWays : Bool)
+variable (key : Entry α → Nat) (mw : Bool → OfMatch → OfMatch → Bool) (bothWays : Bool)
 
-theorem step_add (tbl : Table α) (e : Entry α) : step key bothWays tbl (.add e) = (addEntryBy key e tbl, false) := by
+theorem step_add (tbl : Table α) (e : Entry α) : step key mw bothWays tbl (.add e) = (addEntryBy key e tbl, false) := by
   simp [step, addEntryBy?_eq_some]
 
 /-- only `remove_entry` of an absent object raises -/
-theorem step_raises_iff (tbl : Table α) (op : Op α) : (step key bothWays tbl op).2 = true ↔ ∃ i, op = .removeAt i ∧ tbl.length ≤ i := by
+theorem step_raises_iff (tbl : Table α) (op : Op α) : (step key mw bothWays tbl op).2 = true ↔ ∃ i, op = .removeAt i ∧ tbl.length ≤ i := by
   cases op with
   | add e => simp [step_add]
   | removeAt i =>
@@ -303,7 +303,7 @@ theorem step_raises_iff (tbl : Table α) (op : Op α) : (step key bothWays tbl o
   | expire d => simp [step]
 
 /-- every operation other than `add` leaves a sub-list (same relative order) -/
-theorem step_sublist (tbl : Table α) (op : Op α) (h : ∀ e, op ≠ .add e) : (step key bothWays tbl op).1.Sublist tbl := by
+theorem step_sublist (tbl : Table α) (op : Op α) (h : ∀ e, op ≠ .add e) : (step key mw bothWays tbl op).1.Sublist tbl := by
   cases op with
   | add e => exact absurd rfl (h e)
   | removeAt i =>
@@ -314,30 +314,30 @@ theorem step_sublist (tbl : Table α) (op : Op α) (h : ∀ e, op ≠ .add e) : 
   | removeMatching m pr s po => exact List.filter_sublist
   | expire d => exact List.filter_sublist
 
-theorem step_sorted (tbl : Table α) (op : Op α) (hs : SortedBy key tbl) : SortedBy key (step key bothWays tbl op).1 := by
+theorem step_sorted (tbl : Table α) (op : Op α) (hs : SortedBy key tbl) : SortedBy key (step key mw bothWays tbl op).1 := by
   cases op with
   | add e => rw [step_add]; exact addEntryBy_sorted key e tbl hs
-  | removeAt i => exact hs.sublist (step_sublist key bothWays tbl _ (by intro e h; cases h))
-  | removeMatching m pr s po => exact hs.sublist (step_sublist key bothWays tbl _ (by intro e h; cases h))
-  | expire d => exact hs.sublist (step_sublist key bothWays tbl _ (by intro e h; cases h))
+  | removeAt i => exact hs.sublist (step_sublist key mw bothWays tbl _ (by intro e h; cases h))
+  | removeMatching m pr s po => exact hs.sublist (step_sublist key mw bothWays tbl _ (by intro e h; cases h))
+  | expire d => exact hs.sublist (step_sublist key mw bothWays tbl _ (by intro e h; cases h))
 
-theorem runFrom_sorted (ops : List (Op α)) (tbl : Table α) (hs : SortedBy key tbl) : SortedBy key (runFrom key bothWays tbl ops) := by
+theorem runFrom_sorted (ops : List (Op α)) (tbl : Table α) (hs : SortedBy key tbl) : SortedBy key (runFrom key mw bothWays tbl ops) := by
   induction ops generalizing tbl with
   | nil => exact hs
-  | cons op ops ih => exact ih _ (step_sorted key bothWays tbl op hs)
+  | cons op ops ih => exact ih _ (step_sorted key mw bothWays tbl op hs)
 
-theorem run_sorted (ops : List (Op α)) : SortedBy key (run key bothWays ops) := runFrom_sorted key bothWays ops [] List.Pairwise.nil
+theorem run_sorted (ops : List (Op α)) : SortedBy key (run key mw bothWays ops) := runFrom_sorted key mw bothWays ops [] List.Pairwise.nil
 
-theorem mem_step (tbl : Table α) (op : Op α) (x : Entry α) (hx : x ∈ (step key bothWays tbl op).1) : x ∈ tbl ∨ op = .add x := by
+theorem mem_step (tbl : Table α) (op : Op α) (x : Entry α) (hx : x ∈ (step key mw bothWays tbl op).1) : x ∈ tbl ∨ op = .add x := by
   cases op with
   | add e =>
     rw [step_add] at hx
     rcases (mem_addEntryBy key e x tbl).mp hx with rfl | h
     · exact .inr rfl
     · exact .inl h
-  | removeAt i => exact .inl ((step_sublist key bothWays tbl _ (by intro e h; cases h)).subset hx)
-  | removeMatching m pr s po => exact .inl ((step_sublist key bothWays tbl _ (by intro e h; cases h)).subset hx)
-  | expire d => exact .inl ((step_sublist key bothWays tbl _ (by intro e h; cases h)).subset hx)
+  | removeAt i => exact .inl ((step_sublist key mw bothWays tbl _ (by intro e h; cases h)).subset hx)
+  | removeMatching m pr s po => exact .inl ((step_sublist key mw bothWays tbl _ (by intro e h; cases h)).subset hx)
+  | expire d => exact .inl ((step_sublist key mw bothWays tbl _ (by intro e h; cases h)).subset hx)
 
 theorem mem_added_cons (op : Op α) (ops : List (Op α)) (x : Entry α) :
     x ∈ added (op :: ops) ↔ op = .add x ∨ x ∈ added ops := by
@@ -351,30 +351,30 @@ theorem mem_added_cons (op : Op α) (ops : List (Op α)) (x : Entry α) :
   | removeMatching m pr s po => simp [added]
   | expire d => simp [added]
 
-theorem mem_runFrom (ops : List (Op α)) (tbl : Table α) (x : Entry α) (hx : x ∈ runFrom key bothWays tbl ops) :
+theorem mem_runFrom (ops : List (Op α)) (tbl : Table α) (x : Entry α) (hx : x ∈ runFrom key mw bothWays tbl ops) :
     x ∈ tbl ∨ x ∈ added ops := by
   induction ops generalizing tbl with
   | nil => exact .inl hx
   | cons op ops ih =>
     rcases ih _ hx with h | h
-    · rcases mem_step key bothWays tbl op x h with h' | h'
+    · rcases mem_step key mw bothWays tbl op x h with h' | h'
       · exact .inl h'
       · exact .inr ((mem_added_cons op ops x).mpr (.inl h'))
     · exact .inr ((mem_added_cons op ops x).mpr (.inr h))
 
 /-- everything in the table was handed to `add_entry` at some point of the history -/
-theorem mem_run (ops : List (Op α)) (x : Entry α) (hx : x ∈ run key bothWays ops) : x ∈ added ops := by
-  rcases mem_runFrom key bothWays ops [] x hx with h | h
+theorem mem_run (ops : List (Op α)) (x : Entry α) (hx : x ∈ run key mw bothWays ops) : x ∈ added ops := by
+  rcases mem_runFrom key mw bothWays ops [] x hx with h | h
   · cases h
   · exact h
 
 /-- a history of adds only: the table holds exactly what was added -/
 theorem mem_runFrom_adds (es : List (Entry α)) (tbl : Table α) (x : Entry α) :
-    x ∈ runFrom key bothWays tbl (es.map Op.add) ↔ x ∈ tbl ∨ x ∈ es := by
+    x ∈ runFrom key mw bothWays tbl (es.map Op.add) ↔ x ∈ tbl ∨ x ∈ es := by
   induction es generalizing tbl with
   | nil => simp [runFrom]
   | cons e es ih =>
-    have : runFrom key bothWays tbl ((e :: es).map Op.add) = runFrom key bothWays (addEntryBy key e tbl) (es.map Op.add) := by
+    have : runFrom key mw bothWays tbl ((e :: es).map Op.add) = runFrom key mw bothWays (addEntryBy key e tbl) (es.map Op.add) := by
       simp [runFrom, step_add]
     rw [this, ih, mem_addEntryBy]
     simp only [List.mem_cons]
